@@ -60,11 +60,59 @@ def r6_1(repo: Repo) -> RuleResult:
     return rr
 
 
-RULES = [r6_1]
+def r6_3(repo: Repo) -> RuleResult:
+    import ast as _ast
+    from .. import sym
+    from ..model import walk_no_nested
+
+    rr = RuleResult("R6.3", "n-gram enumeration takes every run sequence[i : i + n] that fits and no other", floor=2)
+    f = repo.func("vectorizers/ngram_vectorizer.py", "ngrams_of")
+    seq = f.params[0]
+    appends = [n for n in walk_no_nested(f.node) if isinstance(n, _ast.Call) and norm(n.func) == "result.append"]
+    if len(appends) != 2:
+        raise AnalysisError("R6.3: expected the exact and the subgram append in ngrams_of")
+    from .common import parents_map, ancestors
+
+    pm = parents_map(f.node)
+    for a in appends:
+        sl = a.args[0]
+        if not (isinstance(sl, _ast.Subscript) and isinstance(sl.slice, _ast.Slice) and norm(sl.value) == seq):
+            raise AnalysisError("R6.3: appended value is not a slice of the sequence")
+        lo, hi = sl.slice.lower, sl.slice.upper
+        guards = [x for x in ancestors(a, pm) if isinstance(x, _ast.If) and "len(%s)" % seq in norm(x.test)]
+        loops = [x for x in ancestors(a, pm) if isinstance(x, _ast.For)]
+        construct = "append(%s)" % norm(sl)
+        problems = []
+        if not guards:
+            problems.append("no length guard")
+        else:
+            t = guards[0].test
+            ok = isinstance(t, _ast.Compare) and len(t.ops) == 1 and isinstance(t.ops[0], _ast.LtE) \
+                and sym.poly(t.left) == sym.poly(hi) and norm(t.comparators[0]) == "len(%s)" % seq
+            if not ok:
+                problems.append("length guard is `%s`, not `%s <= len(%s)`: the last n-gram is dropped or a short run is emitted" % (norm(t), norm(hi), seq))
+        outer = loops[-1] if loops else None
+        if outer is None or norm(outer.iter) != "range(len(%s))" % seq or norm(lo) != norm(outer.target):
+            problems.append("runs do not start at every position i of range(len(%s))" % seq)
+        if problems:
+            rr.bad(f, construct, "; ".join(problems), a.lineno)
+        else:
+            rr.ok(f, construct, "start i over range(len(seq)), guard `%s`" % norm(guards[0].test), a.lineno)
+    # subgrams: lengths 1..n
+    sub = [x for x in walk_no_nested(f.node) if isinstance(x, _ast.For) and norm(x.target) == "j"]
+    if sub:
+        if norm(sub[0].iter) == "range(1, ngram_size + 1)":
+            rr.ok(f, "subgram lengths", "j over range(1, ngram_size + 1)", sub[0].lineno)
+        else:
+            rr.bad(f, "subgram lengths", "subgram lengths iterate `%s`, not 1..ngram_size" % norm(sub[0].iter), sub[0].lineno)
+    return rr
+
+
+RULES = [r6_1, r6_3]
 CLAIM = (
     "R6.1 a small kinds checker infers, from the fit path, whether each fitted dictionary attribute maps labels to indices or "
     "indices to labels (dict(zip(A, range)), enumerate comprehensions, items() flips, .copy(), returns of the preprocessing "
-    "functions) and requires every other assignment to the same attribute - in particular in NgramVectorizer.__add__ - to have the same kind."
+    "functions) and requires every other assignment to the same attribute - in particular in NgramVectorizer.__add__ - to have the same kind (and the kind its documented name declares); R6.3 ngrams_of enumerates sequence[i : i + n] for every i with the guard i + n <= len(sequence) (symbolic), subgram lengths 1..n."
 )
 NOT_DECIDED = (
     "the counts themselves, EdgeList duplicate summation, and the skip-gram encode/decode modulus agreement (R6.2 of the design: "
